@@ -22,6 +22,8 @@ def run(tier, seed):
     # lookups on constant tables reachable from the reader / the record writers (a value the reader refuses although it was stored)
     from ..rules import sortedtab
     sortedtab.check(rep, prog, [k for k, f in prog.functions.items() if '/bxdecay0/' in f.get('file', '') or '/programs/' in f.get('file', '')])
+    from ..rules import announce
+    announce.check(rep, prog)
     es = prog.fn('bxdecay0::event::store')
     ps = prog.fn('bxdecay0::particle::store')
     rd = prog.fn('bxdecay0::event_reader::load_next_event')
